@@ -788,3 +788,206 @@ Proof. apply sim_run_nodup. Qed.
 Theorem c_init_arr_ok nl size init : (0 < size)%nat -> c_init_ok nl init ->
   forall a, c_oka a -> c_lookup nl (c_init nl size init) a = arr_init init 0 a.
 Proof. intros Hs [Hn Hr]. apply c_init_arr; assumption. Qed.
+
+(* ------------------------------------------------------------------ *)
+(** * (v) Verilog memory block                                          *)
+Lemma vlog_apply_ws ws : forall m a,
+  fold_left vlog_apply (vlog_nba ws) m a = fold_left arr_write ws m a.
+Proof.
+  induction ws as [|w r IH]; intros m a; [reflexivity|].
+  cbn [fold_left]. rewrite <- IH. unfold vlog_nba, fast_mem_ws. cbn [flat_map].
+  rewrite fold_left_app. unfold arr_write. destruct (enabled w); reflexivity.
+Qed.
+
+Lemma vlog_fold_ext l : forall m m', (forall a, m a = m' a) ->
+  forall a, fold_left vlog_apply l m a = fold_left vlog_apply l m' a.
+Proof.
+  induction l as [|p r IH]; intros m m' H a; simpl; [apply H|].
+  apply IH. intros a'. unfold vlog_apply, upd. destruct (a' =? fst p); [reflexivity|apply H].
+Qed.
+
+Theorem vlog_refines_array : forall h h' m A,
+  (forall a, m a = A a) -> Forall cycle_ok h -> Forall2 cycle_perm h h' ->
+  fst (vlog_run m h') = fst (arr_run A h)
+  /\ forall a, snd (vlog_run m h') a = snd (arr_run A h) a.
+Proof.
+  induction h as [|c r IH]; intros h' m A H Hok Hp.
+  - inversion Hp; subst. simpl. auto.
+  - inversion Hp as [|? c' ? r' [Hpc Hrc] Hr]; subst. inversion Hok as [|? ? Hc Hokr]; subst.
+    cbn [vlog_run arr_run]. unfold vlog_step, arr_step.
+    assert (Hnext : forall a, fold_left vlog_apply (vlog_nba (fst c')) m a = fold_left arr_write (fst c) A a).
+    { intros a. rewrite vlog_apply_ws. rewrite (fold_write_ext (fst c') m A H).
+      symmetry. apply writes_commute; assumption. }
+    specialize (IH r' _ _ Hnext Hokr Hr).
+    destruct (vlog_run (fold_left vlog_apply (vlog_nba (fst c')) m) r') as [rds m2].
+    destruct (arr_run (fold_left arr_write (fst c) A) r) as [rds' A2]. simpl in *.
+    destruct IH as [IH1 IH2]. split; [|assumption].
+    f_equal; [|assumption]. rewrite Hrc. apply map_ext. assumption.
+Qed.
+
+(* ------------------------------------------------------------------ *)
+(** * (vi) synthesized ports                                            *)
+Lemma rebuild_id n : forall x, 0 <= x < 2 ^ Z.of_nat n -> rebuild n x = x.
+Proof.
+  unfold rebuild. induction n as [|n IH]; intros x Hx.
+  - simpl in *. lia.
+  - cbn [to_bits of_bits].
+    assert (Hpow : 2 ^ Z.of_nat (Datatypes.S n) = 2 * 2 ^ Z.of_nat n).
+    { rewrite Nat2Z.inj_succ, Z.pow_succ_r by lia. reflexivity. }
+    rewrite Hpow in Hx. rewrite IH.
+    + pose proof (Z.div_mod x 2). rewrite Zmod_odd in H. unfold b2z. destruct (Z.odd x); lia.
+    + split; [apply Z.div_pos; lia|]. apply Z.div_lt_upper_bound; lia.
+Qed.
+
+Lemma synth_cycle_id aw dw c : cycle_fits aw dw c -> synth_cycle aw dw c = c.
+Proof.
+  intros [Hw Hr]. destruct c as [ws rs]. unfold synth_cycle. simpl in *. f_equal.
+  - induction ws as [|w r IH]; [reflexivity|]. inversion Hw as [|? ? [Ha [Hd He]] Hrest]; subst.
+    simpl. rewrite IH by assumption. f_equal. unfold synth_wport.
+    rewrite !rebuild_id by (simpl; try lia; assumption). destruct w as [[a d] e]. reflexivity.
+  - induction rs as [|a r IH]; [reflexivity|]. inversion Hr; subst.
+    simpl. rewrite IH, rebuild_id by assumption. reflexivity.
+Qed.
+
+(* splitting a port into bits and re-assembling it changes nothing: every refinement
+   theorem above transfers to the synthesized design *)
+Theorem synth_step_id {S} (step : S -> cycle -> list Z * S) aw dw s c :
+  cycle_fits aw dw c ->
+  Forall (fun v => 0 <= v < 2 ^ Z.of_nat dw) (fst (step s c)) ->
+  synth_step step aw dw s c = step s c.
+Proof.
+  intros Hc Hv. unfold synth_step. rewrite synth_cycle_id by assumption.
+  destruct (step s c) as [rd s']. simpl in *. f_equal.
+  induction rd as [|v r IH]; [reflexivity|]. inversion Hv; subst.
+  simpl. rewrite IH, rebuild_id by assumption. reflexivity.
+Qed.
+
+(* ------------------------------------------------------------------ *)
+(** * Structure of the hash map: buckets stay well formed                *)
+Section HashMapWF.
+Context {V : Type}.
+Variable hash : Z -> Z.
+
+Lemma chain_replace_some (c : @chain V) k v : forall c', chain_replace c k v = Some c' ->
+  map fst c' = map fst c /\ In k (map fst c).
+Proof.
+  induction c as [|[k0 v0] r IH]; intros c' H; simpl in H; [discriminate|].
+  destruct (k0 =? k) eqn:E.
+  - injection H as <-. simpl. split; [reflexivity|left; lia].
+  - destruct (chain_replace r k v) as [r'|] eqn:Er; [|discriminate]. injection H as <-.
+    destruct (IH _ eq_refl) as [H1 H2]. simpl. split; [f_equal; assumption|right; assumption].
+Qed.
+
+Lemma chain_replace_none (c : @chain V) k v : chain_replace c k v = None -> ~ In k (map fst c).
+Proof.
+  induction c as [|[k0 v0] r IH]; intros H; simpl in *; [tauto|].
+  destruct (k0 =? k) eqn:E; [discriminate|].
+  destruct (chain_replace r k v); [discriminate|]. intros [Heq|Hin]; [lia|]. apply IH; auto.
+Qed.
+
+Lemma nth_error_set_nth {A} (l : list A) : forall n m x,
+  nth_error (set_nth n l x) m
+  = if Nat.eqb m n then (if Nat.ltb n (length l) then Some x else None) else nth_error l m.
+Proof.
+  induction l as [|y r IH]; intros [|n] [|m] x; simpl; try reflexivity.
+  - destruct (Nat.eqb m n); reflexivity.
+  - rewrite IH. reflexivity.
+Qed.
+
+Theorem hm_wf_create n : hm_wf hash (@hm_create V n).
+Proof.
+  intros i c H. apply nth_error_In in H. unfold hm_create in H. apply repeat_spec in H. subst.
+  simpl. split; [constructor|tauto].
+Qed.
+
+Theorem hm_wf_insert (h : @hmap V) k v : h <> [] -> hm_wf hash h -> hm_wf hash (hm_insert hash h k v).
+Proof.
+  intros Hne Hwf i c Hn.
+  assert (Hp : forall x, hm_pos hash (hm_insert hash h k v) x = hm_pos hash h x).
+  { intros x. unfold hm_pos. rewrite hm_insert_length. reflexivity. }
+  unfold hm_insert in Hn. rewrite nth_error_set_nth in Hn.
+  pose proof (hm_pos_bound hash h k Hne) as Hb.
+  destruct (Nat.eqb i (hm_pos hash h k)) eqn:Ei.
+  - apply Nat.eqb_eq in Ei. subst i.
+    destruct (Nat.ltb (hm_pos hash h k) (length h)) eqn:El; [|apply Nat.ltb_ge in El; lia].
+    injection Hn as <-.
+    assert (Hc0 : nth_error h (hm_pos hash h k) = Some (nth (hm_pos hash h k) h [])).
+    { apply nth_error_nth'. assumption. }
+    destruct (Hwf _ _ Hc0) as [Hnd Hpos].
+    unfold chain_insert. destruct (chain_replace (nth (hm_pos hash h k) h []) k v) as [c'|] eqn:Er.
+    + destruct (chain_replace_some _ _ _ _ Er) as [Hk _]. rewrite Hk.
+      split; [assumption|]. intros x Hx. rewrite Hp. apply Hpos. assumption.
+    + apply chain_replace_none in Er. simpl. split; [constructor; assumption|].
+      intros x [<-|Hx]; rewrite Hp; [reflexivity|apply Hpos; assumption].
+  - destruct (Hwf _ _ Hn) as [Hnd Hpos]. split; [assumption|].
+    intros x Hx. rewrite Hp. apply Hpos. assumption.
+Qed.
+
+(* an insert never duplicates a key: the number of nodes grows by one exactly when the
+   key is new (the C code allocates a node it leaks otherwise, but never links it) *)
+Lemma chain_insert_length (c : @chain V) k v :
+  length (chain_insert c k v) = if existsb (Z.eqb k) (map fst c) then length c else Datatypes.S (length c).
+Proof.
+  unfold chain_insert. destruct (chain_replace c k v) as [c'|] eqn:Er.
+  - destruct (chain_replace_some _ _ _ _ Er) as [Hk Hin].
+    assert (Hl : length c' = length c).
+    { rewrite <- (map_length fst c'), Hk, map_length. reflexivity. }
+    destruct (existsb (Z.eqb k) (map fst c)) eqn:E; [assumption|].
+    exfalso. assert (existsb (Z.eqb k) (map fst c) = true); [|congruence].
+    apply existsb_exists. exists k. split; [assumption|apply Z.eqb_refl].
+  - apply chain_replace_none in Er. destruct (existsb (Z.eqb k) (map fst c)) eqn:E; [|reflexivity].
+    apply existsb_exists in E. destruct E as [x [Hx Heq]]. apply Z.eqb_eq in Heq. subst. contradiction.
+Qed.
+
+End HashMapWF.
+
+(* the state after a run does not depend on what was read *)
+Lemma mach_run_state {S} (cread : S -> Z -> Z) cwrite : forall h (s : S),
+  snd (mach_run cread cwrite s h) = fold_left (fun s c => fold_left cwrite (fst c) s) h s.
+Proof.
+  induction h as [|c r IH]; intros s; [reflexivity|].
+  cbn [mach_run fold_left]. unfold mach_step. rewrite <- IH.
+  destruct (mach_run cread cwrite (fold_left cwrite (fst c) s) r). reflexivity.
+Qed.
+
+(* every state CompiledSimulation can reach is well formed *)
+Theorem comp_run_wf nl : forall h (s : cmap), s <> [] -> hm_wf c_hash s ->
+  hm_wf c_hash (snd (comp_mem_run nl s h)) /\ snd (comp_mem_run nl s h) <> [].
+Proof.
+  assert (Hw : forall ws (s : cmap), s <> [] -> hm_wf c_hash s ->
+            hm_wf c_hash (fold_left (c_write nl) ws s) /\ fold_left (c_write nl) ws s <> []).
+  { induction ws as [|w r IH]; intros s Hne Hwf; simpl; [auto|].
+    apply IH; unfold c_write; destruct (enabled w); auto.
+    - apply hm_insert_nonempty. assumption.
+    - apply hm_wf_insert; assumption. }
+  intros h s. unfold comp_mem_run. rewrite mach_run_state. revert s.
+  induction h as [|c r IH]; intros s Hne Hwf; simpl; [auto|].
+  destruct (Hw (fst c) s Hne Hwf) as [H1 H2]. apply IH; assumption.
+Qed.
+
+Theorem c_init_wf nl size init : (0 < size)%nat ->
+  hm_wf c_hash (c_init nl size init) /\ c_init nl size init <> [].
+Proof.
+  intros Hs. unfold c_init.
+  generalize (map (fun kv : Z * Z => (fst kv, snd kv, 1)) init) as ws.
+  assert (H0 : hm_wf c_hash (@hm_create (list Z) size)) by apply hm_wf_create.
+  assert (H1 : @hm_create (list Z) size <> []) by (apply hm_create_nonempty; assumption).
+  revert H0 H1. generalize (@hm_create (list Z) size) as s.
+  intros s H0 H1 ws. revert s H0 H1.
+  induction ws as [|w r IH]; intros s H0 H1; simpl; [auto|].
+  apply IH; unfold c_write; destruct (enabled w); auto.
+  - apply hm_wf_insert; assumption.
+  - apply hm_insert_nonempty. assumption.
+Qed.
+
+Theorem comp_states_wf nl size init h : (0 < size)%nat ->
+  hm_wf c_hash (snd (comp_mem_run nl (c_init nl size init) h)).
+Proof.
+  intros Hs. destruct (c_init_wf nl size init Hs) as [H1 H2].
+  exact (proj1 (comp_run_wf nl h _ H2 H1)).
+Qed.
+
+Theorem chain_insert_no_duplicate_node {V} (c : @chain V) k v :
+  length (chain_insert c k v)
+  = if existsb (Z.eqb k) (map fst c) then length c else Datatypes.S (length c).
+Proof. exact (chain_insert_length (fun x => x) c k v). Qed.
